@@ -271,7 +271,10 @@ func projectColumns(selectList sql.SelectList, qfields storage.Fields, rows []*s
 				field = &storage.Field{Column: "count(*)"}
 			}
 		case sql.ColumnReference:
-			field = qfields[lookup[elem]]
+			// copy: the same source column may be selected several times
+			// under different aliases
+			fieldCopy := *qfields[lookup[elem]]
+			field = &fieldCopy
 		default:
 			field = &storage.Field{Column: "?"}
 		}
